@@ -361,7 +361,8 @@ class SingularityCutter(Worker):
 
         singuls_attr = self._cut_graph.vertices.create_attribute("selection", bool)
         for x in self.singularities:
-            singuls_attr[new_v_id[x]] = True
+            if x in new_v_id: # a singular vertex is on no cut edge when a sphere is left uncut
+                singuls_attr[new_v_id[x]] = True
         self._cut_graph = PolyLine(self._cut_graph)
 
     def _build_mesh_with_cuts(self):
